@@ -349,6 +349,8 @@ func (w *failingWriter) Write(p []byte) (int, error) {
 			if len(p) > 0 {
 				acc = len(p) - 1
 			}
+		case 3: // the whole buffer is accepted and the error is still reported (legal for an io.Writer)
+			acc = len(p)
 		}
 		w.buf.Write(p[:acc])
 		return acc, errInjected
@@ -365,7 +367,12 @@ func (w *richFailingWriter) WriteByte(b byte) error {
 	return err
 }
 
-func (w *richFailingWriter) WriteString(s string) (int, error) { return w.failingWriter.Write([]byte(s)) }
+func (w *richFailingWriter) WriteString(s string) (int, error) {
+	return w.failingWriter.Write([]byte(s))
+}
+
+// Flush makes the writer look like a buffered writer whose Flush has nothing to report.
+func (w *richFailingWriter) Flush() error { return nil }
 
 type callResult struct {
 	err     error
@@ -557,7 +564,7 @@ func runC16(c *core.Ctx, i int) {
 	pos := syncPositions(cont)
 	r := c.Rand(i, 7)
 	for k := 1; k <= W; k++ {
-		for mode := 0; mode < 3; mode++ {
+		for mode := 0; mode < 4; mode++ {
 			w := &failingWriter{failAt: k, mode: mode, r: r}
 			res := run(w)
 			c.Eval(1)
@@ -634,8 +641,8 @@ func init() {
 	core.Register(&core.Prop{
 		ID:        "C16",
 		Level:     "fault_enumeration",
-		Technique: "runtime monitoring with exhaustive fault enumeration: every history is replayed once per write index k against an io.Writer that fails on its k-th write (accepting nothing / a random proper prefix / all but the last byte); return values, panics and accepted bytes are checked",
-		Rule: "histories of <=30 Encoder calls (two thirds) or direct FileWriter.WriteHeader/WriteBlock sequences (one third), all codecs; a fault-free run counts the writes W, then all k in 1..W x 3 failure modes are replayed; " +
+		Technique: "runtime monitoring with exhaustive fault enumeration: every history is replayed once per write index k against an io.Writer that fails on its k-th write (accepting nothing / a random proper prefix / all but the last byte / the whole buffer); return values, panics and accepted bytes are checked",
+		Rule: "histories of <=30 Encoder calls (two thirds) or direct FileWriter.WriteHeader/WriteBlock sequences (one third), all codecs; a fault-free run counts the writes W, then all k in 1..W x 4 failure modes are replayed; " +
 			"distinct_nontrivial = distinct (API, type, codec, W) combinations whose every write index was failed",
 		Explanation: "The call during which write k happens must return a non-nil error with errors.Is(err, injected); earlier calls return nil; nothing panics. Prefix check with the random sync marker factored out: sync positions are learnt from the fault-free output via the reference parser, both byte strings are masked there, the masked accepted bytes must be a prefix of the masked fault-free bytes, and all sync bytes inside the accepted bytes must agree with each other.",
 		Assumptions: []string{"deflate and snappy output are deterministic for identical input, so the byte layout of both runs is identical", "map fields hold at most one entry"},
